@@ -3,7 +3,7 @@
    property describes, oldest first, each event carrying index, window (offset, length) and decoded
    fields; histories are newest first, so "h followed by d" is [rev d ++ h]. *)
 From BS Require Import Impl.Visit Ref.MetaDefs Proofs.ImplRefLeaf Proofs.Transfer Proofs.Entries
-  Proofs.SpecLemmas Proofs.RefSpec Proofs.SpecTransfer.
+  Proofs.SpecLemmas Proofs.RefSpec Proofs.SpecTransfer Proofs.EvSound Proofs.EvTransfer.
 Open Scope N_scope.
 
 (* every valid input: the callbacks are exactly the traversal of the decoded structure *)
@@ -38,3 +38,11 @@ Theorem C04_failing_input_prefix : forall E S, specified E S -> forall p b h e t
   s_wf S a -> e_D E (s_enc S a ++ rest) -> s_enc S a ++ rest = b ++ x ->
   e_visit E never (sl p b) h = (Err e, tr) -> ext_hist tr (rev (s_trav S p a) ++ h).
 Proof. intros E S _. exact (T_failing_trace_is_prefix E S). Qed.
+
+(* on ANY input (valid or not) and under ANY visitor, the callbacks delivered never describe data that is
+   not actually present in the input: every window lies inside the input, and the bytes of the window
+   re-decode to exactly the index, sub-windows and field values the callback carries; every announced
+   count is a compact size that is really in the input  ([ev_sound], Proofs/EvSound.v) *)
+Theorem C04_callbacks_describe_present_data : forall E, covered E -> forall brk p b h, e_D E b ->
+  exists d, snd (e_visit E brk (sl p b) h) = rev d ++ h /\ Forall (ev_sound p b) d.
+Proof. exact T_ev_sound. Qed.
